@@ -72,18 +72,20 @@ theorem resolveConflict_answers {σ : Type} (R : Renamer σ) (r : Run σ) (dir :
 theorem firstPass_backlog {σ : Type} (R : Renamer σ) (gen : Nat → Gen) :
     ∀ (files : List FileRec) (i : Nat) (r : Run σ) (bl : Backlog),
       ∀ x ∈ (firstPass R gen i files r bl).2.1,
-        x ∈ bl ∨ ∃ f ∈ files, ∃ j, gen j = .path x.2.2 ∧ x.2.2 ≠ f.rel ∧ x.1 = f.inputDir ∧ x.2.1 = f.rel := by
+        x ∈ bl ∨ ∃ k f, files[k]? = some f ∧ gen (i + k) = .path x.2.2 ∧ x.2.2 ≠ f.rel ∧ x.1 = f.inputDir ∧ x.2.1 = f.rel := by
   intro files
   induction files with
   | nil => intro i r bl x hx; simp [firstPass] at hx; exact Or.inl hx
   | cons f rest ih =>
     intro i r bl x hx
     rw [firstPass] at hx
-    have lift : (x ∈ bl ∨ ∃ f' ∈ rest, ∃ j, gen j = .path x.2.2 ∧ x.2.2 ≠ f'.rel ∧ x.1 = f'.inputDir ∧ x.2.1 = f'.rel) →
-        (x ∈ bl ∨ ∃ f' ∈ f :: rest, ∃ j, gen j = .path x.2.2 ∧ x.2.2 ≠ f'.rel ∧ x.1 = f'.inputDir ∧ x.2.1 = f'.rel) := by
-      rintro (h | ⟨f', hf', h⟩)
+    have lift : (x ∈ bl ∨ ∃ k f', rest[k]? = some f' ∧ gen (i + 1 + k) = .path x.2.2 ∧ x.2.2 ≠ f'.rel ∧ x.1 = f'.inputDir ∧ x.2.1 = f'.rel) →
+        (x ∈ bl ∨ ∃ k f', (f :: rest)[k]? = some f' ∧ gen (i + k) = .path x.2.2 ∧ x.2.2 ≠ f'.rel ∧ x.1 = f'.inputDir ∧ x.2.1 = f'.rel) := by
+      rintro (h | ⟨k, f', hf', hg, h⟩)
       · exact Or.inl h
-      · exact Or.inr ⟨f', List.mem_cons_of_mem _ hf', h⟩
+      · refine Or.inr ⟨k + 1, f', by simpa using hf', ?_, h⟩
+        have : i + (k + 1) = i + 1 + k := by omega
+        rw [this]; exact hg
     cases hg : gen i with
     | invalidName => simp only [hg] at hx; exact Or.inl hx
     | error => simp only [hg] at hx; exact Or.inl hx
@@ -114,7 +116,7 @@ theorem firstPass_backlog {σ : Type} (R : Renamer σ) (gen : Nat → Gen) :
                     rcases h with h | h
                     · exact Or.inl h
                     · subst h
-                      exact Or.inr ⟨f, List.mem_cons_self, i, hg, hp, rfl, rfl⟩
+                      exact Or.inr ⟨0, f, rfl, hg, hp, rfl, rfl⟩
                   · exact lift (Or.inr h)
                 · simp only [he, Bool.false_eq_true, if_false] at hx
                   exact Or.inl hx
@@ -145,7 +147,7 @@ theorem call_sim (r₁ : Run σ₁) (r₂ : Run σ₂) (h : RunSim S r₁ r₂) 
 
 theorem firstPass_sim (gen : Nat → Gen) :
     ∀ (files : List FileRec) (i : Nat) (r₁ : Run σ₁) (r₂ : Run σ₂) (bl : Backlog),
-      (∀ f ∈ files, ∀ j p, gen j = .path p → p ≠ f.rel → G f.inputDir f.rel p) → RunSim S r₁ r₂ →
+      (∀ k f, files[k]? = some f → ∀ p, gen (i + k) = .path p → p ≠ f.rel → G f.inputDir f.rel p) → RunSim S r₁ r₂ →
       RunSim S (firstPass R₁ gen i files r₁ bl).1 (firstPass R₂ gen i files r₂ bl).1 ∧
       (firstPass R₁ gen i files r₁ bl).2 = (firstPass R₂ gen i files r₂ bl).2 := by
   intro files
@@ -153,8 +155,11 @@ theorem firstPass_sim (gen : Nat → Gen) :
   | nil => intro i r₁ r₂ bl _ h; simp [firstPass, h]
   | cons f rest ih =>
     intro i r₁ r₂ bl hG h
-    have hGrest : ∀ f' ∈ rest, ∀ j p, gen j = .path p → p ≠ f'.rel → G f'.inputDir f'.rel p :=
-      fun f' hf' => hG f' (List.mem_cons_of_mem _ hf')
+    have hGrest : ∀ k f', rest[k]? = some f' → ∀ p, gen (i + 1 + k) = .path p → p ≠ f'.rel → G f'.inputDir f'.rel p := by
+      intro k f' hf' p hgp hne
+      have : i + 1 + k = i + (k + 1) := by omega
+      rw [this] at hgp
+      exact hG (k + 1) f' (by simpa using hf') p hgp hne
     rw [firstPass, firstPass]
     cases hg : gen i with
     | invalidName => exact ⟨h, rfl⟩
@@ -172,7 +177,7 @@ theorem firstPass_sim (gen : Nat → Gen) :
           | false => exact ⟨h, rfl⟩
           | true =>
             simp only
-            have hcs := call_sim sim r₁ r₂ h f.inputDir f.rel p false (hG f List.mem_cons_self i p hg hp)
+            have hcs := call_sim sim r₁ r₂ h f.inputDir f.rel p false (hG 0 f rfl p hg hp)
             cases h1 : r₁.call R₁ f.inputDir f.rel p false with
             | mk r1' e1 =>
               cases h2 : r₂.call R₂ f.inputDir f.rel p false with
@@ -308,13 +313,14 @@ theorem secondPass_sim (strategy : Strategy) :
     the same order, with the same override markers, and end the same way -/
 theorem runs_agree_on (s₁ : σ₁) (s₂ : σ₂) (h0 : S s₁ s₂) (files : List FileRec) (gen : Nat → Gen)
     (strategy : Strategy) (answers : List Answer)
-    (hplan : ∀ f ∈ files, ∀ j p, gen j = .path p → p ≠ f.rel → G f.inputDir f.rel p)
+    (hplan : ∀ k f, files[k]? = some f → ∀ p, gen k = .path p → p ≠ f.rel → G f.inputDir f.rel p)
     (hcust : ∀ f ∈ files, ∀ q, Answer.custom q ∈ answers → G f.inputDir f.rel q) :
     (execute R₁ s₁ files gen strategy answers).1.events = (execute R₂ s₂ files gen strategy answers).1.events ∧
     (execute R₁ s₁ files gen strategy answers).2 = (execute R₂ s₂ files gen strategy answers).2 ∧
     S (execute R₁ s₁ files gen strategy answers).1.st (execute R₂ s₂ files gen strategy answers).1.st := by
   unfold execute
-  have h1 := firstPass_sim sim gen files 0 { st := s₁ } { st := s₂ } [] hplan ⟨h0, rfl⟩
+  have h1 := firstPass_sim sim gen files 0 { st := s₁ } { st := s₂ } []
+    (fun k f hf p hg hne => hplan k f hf p (by simpa using hg) hne) ⟨h0, rfl⟩
   have hbl := firstPass_backlog R₁ gen files 0 { st := s₁ } []
   cases f1 : firstPass R₁ gen 0 files { st := s₁ } [] with
   | mk r1 t1 =>
@@ -332,10 +338,10 @@ theorem runs_agree_on (s₁ : σ₁) (s₂ : σ₂) (h0 : S s₁ s₂) (files : 
         simp only
         have hblG : ∀ x ∈ bl.reverse, G x.1 x.2.1 x.2.2 ∧ ∀ q, Answer.custom q ∈ answers → G x.1 x.2.1 q := by
           intro x hx
-          rcases hbl x (List.mem_reverse.mp hx) with h | ⟨f, hf, j, hj, hne, hd, hs⟩
+          rcases hbl x (List.mem_reverse.mp hx) with h | ⟨k, f, hf, hj, hne, hd, hs⟩
           · simp at h
           · rw [hd, hs]
-            exact ⟨hplan f hf j _ hj hne, hcust f hf⟩
+            exact ⟨hplan k f hf _ (by simpa using hj) hne, hcust f (List.mem_of_getElem? hf)⟩
         have h2 := secondPass_sim sim strategy bl.reverse r1 r2 answers hblG hr
         cases g1 : secondPass R₁ strategy bl.reverse r1 answers with
         | mk q1 o1 =>
@@ -428,6 +434,43 @@ theorem errSim_notFound : ErrSim (some (.os .ENOENT)) (some .notFound) :=
 
 theorem take_append_le {α : Type} (l : List α) (x : α) (k : Nat) (hk : k ≤ l.length) : (l ++ [x]).take k = l.take k := by
   rw [List.take_append_of_le_length hk]
+
+/-- the dry-run renamer on a name-mode call, in closed form -/
+theorem dry_name_call (base : FS) (s : DryState) (dir : APath) (src dst : PurePath) (ov : Bool)
+    (hG : NameCall base dir src dst) :
+    absKey dir src ≠ absKey dir dst ∧
+    dryRunRenamerWith true s dir src dst ov =
+      if (vexists s (absKey dir dst) && !ov) = true then (s, some .destExists)
+      else if vexists s (absKey dir src) = false then (s, some .notFound)
+      else ({ s with removed := (s.removed ++ [absKey dir src]).filter (· ≠ absKey dir dst),
+                     created := (s.created ++ [absKey dir dst]).filter (· ≠ absKey dir src) }, none) := by
+  obtain ⟨sp, n, m, rfl, rfl, hnm, hn, hm, hsp, _, _, _⟩ := hG
+  have hplain : ∀ x : Name, x ≠ dotdot → ∀ c ∈ sp ++ [x], c ≠ dotdot := by
+    intro x hx c hc
+    rw [List.mem_append, List.mem_singleton] at hc
+    rcases hc with hc | hc
+    · exact hsp c hc
+    · rw [hc]; exact hx
+  have hkey : ∀ x : Name, x ≠ dotdot → absKey dir ⟨false, sp ++ [x]⟩ = dir ++ sp ++ [x] := by
+    intro x hx
+    unfold absKey
+    simp only [Bool.false_eq_true, if_false]
+    rw [lexNorm_plain _ _ (hplain x hx)]; simp
+  have hpar : parentOf ⟨false, sp ++ [n]⟩ = parentOf ⟨false, sp ++ [m]⟩ := by simp [parentOf]
+  constructor
+  · rw [hkey n hn, hkey m hm]
+    intro h; have := List.append_cancel_left h; simp at this; exact hnm this
+  · unfold dryRunRenamerWith vexists
+    simp only [hpar, ne_eq, not_true_eq_false, decide_false, Bool.and_false, Bool.false_eq_true, if_false]
+    by_cases h1 : ((lexists s.base (absKey dir ⟨false, sp ++ [m]⟩) || s.created.contains (absKey dir ⟨false, sp ++ [m]⟩)) &&
+        !s.removed.contains (absKey dir ⟨false, sp ++ [m]⟩) && !ov) = true
+    · rw [if_pos h1, if_pos h1]
+    · rw [if_neg h1, if_neg h1]
+      by_cases h2 : ((lexists s.base (absKey dir ⟨false, sp ++ [n]⟩) || s.created.contains (absKey dir ⟨false, sp ++ [n]⟩)) &&
+          !s.removed.contains (absKey dir ⟨false, sp ++ [n]⟩)) = false
+      · rw [if_pos (by rw [h2]; rfl), if_pos h2]
+      · have h2' := (Bool.not_eq_false _).mp h2
+        rw [if_neg (by rw [h2']; decide), if_neg h2]
 
 /-- **the dry-run renamer simulates the in-place renamer** on every name-mode call -/
 theorem name_mode_simulation (base : FS) :
@@ -608,7 +651,7 @@ theorem name_mode_simulation (base : FS) :
     same override markers, and ends with the same outcome (hence exit status). -/
 theorem dry_run_predicts_name_mode (base : FS) (hw : WF base) (hl : LinkFree base)
     (files : List FileRec) (gen : Nat → Gen) (strategy : Strategy) (answers : List Answer)
-    (hplan : ∀ f ∈ files, ∀ j p, gen j = .path p → p ≠ f.rel → NameCall base f.inputDir f.rel p)
+    (hplan : ∀ k f, files[k]? = some f → ∀ p, gen k = .path p → p ≠ f.rel → NameCall base f.inputDir f.rel p)
     (hnocustom : ∀ q, Answer.custom q ∉ answers) :
     (execute realNameRenamer { fs := base } files gen strategy answers).1.events =
       (execute dryRenamer { base := base } files gen strategy answers).1.events ∧
